@@ -60,7 +60,10 @@ Record answer := {
   a_retA : list nat;             (* the object each call returned *)
   a_objsB : list obs;            (* parameter file: the objects load_objects made *)
   a_logB : list call;
-  a_orderB : list nat }.         (* order of the definitions in the parameter file *)
+  a_orderB : list nat;           (* order of the definitions in the parameter file *)
+  a_objsC : list obs;            (* from_state_dict / load / from_task_dir (as_instance=True): the objects made *)
+  a_logC : list call;            (* their call log *)
+  a_initC : bool }.              (* the loader read the task's params.json (init tasks attached) *)
 
 Fixpoint find_obj (l : list object) (n : nat) : option object :=
   match l with [] => None | o :: l' => if Nat.eqb (o_id o) n then Some o else find_obj l' n end.
@@ -120,11 +123,24 @@ Definition check_params (c : case_t) : bool :=
   | None => false
   end.
 
+(* the other loaders go through load_objects only: the objects and the __post_init__ calls of the
+   parameter-file model (what they execute besides is the oracle's business)                    *)
+Definition is_post (c : call) : bool := match c with PostInit _ _ => true | _ => false end.
+Definition check_loader (c : case_t) : bool :=
+  let '(h, root, first, once, a) := c in
+  let hC := if a_initC a then h else map strip_init h in
+  match load_gen once hC root with
+  | Some r => list_eqb call_eqb (filter is_post (a_logC a)) (filter is_post (r_log r))
+              && objs_agree (r_objects r) (a_objsC a)
+  | None => false
+  end.
+
 (* the hypothesis of C13_wired_like_graph / C13_post_init_once_after_fields holds on the case *)
 Definition check_hyps (c : case_t) : bool := let '(h, _, _, _, _) := c in fields_nodupb h.
 
 (* C13 *)
-Definition check_case (c : case_t) : bool := check_hyps c && check_instance c && check_params c.
+Definition check_case (c : case_t) : bool := check_hyps c && check_instance c && check_params c && check_loader c.
 
 (* diagnosis: __post_init__ called before the attribute copy (Instance.instantiate_post_first) *)
-Definition check_case_post_first (c : case_t) : bool := check_hyps c && check_instance_gen true c && check_params c.
+Definition check_case_post_first (c : case_t) : bool :=
+  check_hyps c && check_instance_gen true c && check_params c && check_loader c.
